@@ -337,7 +337,12 @@ DelPathsV(v, ps) ==
   IF ps.t # "arr" THEN RErr(M_path_array)
   ELSE IF \E i \in 1..Len(ps.v) : ps.v[i].t # "arr" THEN RErr(M_path_array)
   ELSE LET s == SortVals(ps.v)
-       IN IF \E i \in 1..Len(s) - 1 : Eq(s[i], s[i + 1]) THEN RSkip   \* duplicate paths: not pinned
+       IN IF s # <<>> /\ s[1].v = <<>> THEN R1(Null)        \* jv_delpaths: the root path among them => null
+          ELSE IF \E i \in 1..Len(s) - 1 : Eq(s[i], s[i + 1]) THEN RSkip   \* duplicate paths: not pinned
+          \* jq resolves all keys into one array against its ORIGINAL length and deletes them in one
+          \* pass ([-1] and [2] may name the same element): with a negative index among several paths
+          \* the one-by-one model below is not faithful => skip
+          ELSE IF Len(s) > 1 /\ \E i \in 1..Len(s) : \E j \in 1..Len(s[i].v) : s[i].v[j].t = "num" /\ s[i].v[j].n < 0 THEN RSkip
           ELSE DelPathsR(v, s, Len(s))
 
 \* tostream events of v located at path p (sequence of key values)
